@@ -354,9 +354,11 @@ pub fn record_hops(out_path: &str, count: u64) {
         } else {
             (val::gen_doc(&mut rng, &GenOpts::streaming()), "common3")
         };
-        // TOML's date-times (which no other format has): a TOML document carrying all four kinds, as written
+        // TOML's date-times (which no other format has): a TOML document carrying all four kinds, as written.
+        // An extension of the start format, not part of the common data model: the fixed-point rule applies to
+        // every output it leads to, the round-trip rule does not (C06's statement limits that to the common model)
         let (a, src, model) = if i == 10 {
-            ("toml", b"odt = 1979-05-27T07:32:00Z\nldt = 1979-05-27T00:32:00.999999\nld = 1979-05-27\nlt = 07:32:00\n[t]\ninner = 2001-01-01T00:00:00+09:00\narr = [1979-05-27, 1980-01-01]\n".to_vec(), "common4")
+            ("toml", b"odt = 1979-05-27T07:32:00Z\nldt = 1979-05-27T00:32:00.999999\nld = 1979-05-27\nlt = 07:32:00\n[t]\ninner = 2001-01-01T00:00:00+09:00\narr = [1979-05-27, 1980-01-01]\n".to_vec(), "ext")
         } else {
             let Some(src) = val::encode(&v, a, Spell { seed: rng.next() | 1 }) else { continue };
             (a, src, model)
